@@ -456,8 +456,13 @@ def rule_f(ctx, ix):
         raise AnalysisError('Data.compute_statistic: sub-array flag (%d), cut (%d) or padding (%d) no longer recognised' % (len(B), len(cut), len(pad)))
     pm = parent_map(f.node)
     for c in cut:
-        tests = [unparse(g.test) for g, br in guard_chain(pm, cfg.stmt[c], f.node) if isinstance(g, ast.If) and br == 'body']
-        ctx.ob(R, f.construct + ' cut', 'the mask is cut to the sub-array only under the flag', flag in tests,
+        from .. import cond
+        pc = cond.path_condition(f.node, cfg.stmt[c], expand=False) or ('const', True)
+        try:
+            under = cond.implies(pc, cond.T(flag))
+        except ValueError:
+            under = False
+        ctx.ob(R, f.construct + ' cut', 'the mask is cut to the sub-array only under the flag', under,
                detail='Data.compute_statistic cuts the mask to the minimal sub-array without testing %s' % flag, where=where(f, cfg.stmt[c]))
     # once the flag is cleared it is false: the true edge of `if use_subarray_slices` is infeasible from there
     pruned = {(n, 'true') for n in cfg.nodes() if cfg.kind[n] == 'if' and unparse(cfg.stmt[n].test) == flag}
